@@ -135,11 +135,11 @@ mutual
 end
 
 theorem xmlReads_items (reads : List (List (Item XmlCb))) :
-    ((reads.map XmlRead.chunk).map XmlRead.toRead).flatMap Read.toItems = reads.flatten := by
+    ((reads.map XmlReadG.chunk).map XmlReadG.toRead).flatMap Read.toItems = reads.flatten := by
   induction reads with
   | nil => rfl
   | cons r rs ih =>
-    simp only [List.map_cons, List.flatMap_cons, XmlRead.toRead, Read.toItems, List.flatten_cons]
+    simp only [List.map_cons, List.flatMap_cons, XmlReadG.toRead, Read.toItems, List.flatten_cons]
     rw [ih]
 
 /-- the queue-free run of a whole forest traversal -/
